@@ -114,7 +114,7 @@ def check(ctx):
     for qn in ("get_aggregate_predictions", "get_aggregate_prediction_intervals"):
         f = ctx.fn(BM, f"BootstrapElectionModel.{qn}")
         s = b.summarize(f, {"estimand": ("const", "margin")}, self_cls=bc)
-        au = s.env.get("all_units")
+        au = am.non_classification_view(s.env.get("all_units"))
         order = None
         for x in ir.walk(au):
             o = am.concat_order(x)
@@ -139,7 +139,8 @@ def check(ctx):
     s = b.summarize(f, {"estimand": ("const", "margin")}, self_cls=bc)
     ret = s.ret()
     ctx.require(ret[0] == "phi", f"{f.where()}: result is not 'top level ? adjusted : raw'")
-    nontop = ret[3]
+    nontop = am.non_classification_view(ret[3])
+    ret = am.non_classification_view(ret)
     pm = F.col(nontop, ("const", "pred_margin"))
     pt = F.col(nontop, ("const", "pred_turnout"))
     core = _strip(pm)
